@@ -25,6 +25,7 @@ func init() { register(&family{name: "reg", run: runReg}) }
 type regOp struct {
 	Kind string `json:"kind"` // open | close | cad | write
 	Mem  bool   `json:"mem,omitempty"`
+	MemSp int   `json:"mem_sp,omitempty"` // in-memory: 0-2 a spelling of the canonical URL, 3 "rosmar://<path of Url>?mode=memory"
 	Url  int    `json:"url,omitempty"`  // index into regUrls
 	Name int    `json:"name,omitempty"` // index into regNames
 	Mode string `json:"mode,omitempty"` // CreateOrOpen | CreateNew | ReOpenExisting
@@ -70,6 +71,14 @@ func regErr(err error, mode string) string {
 	}
 }
 
+// the URL as the model sees it: an in-memory bucket has none unless it was opened at a path
+func regUrlTerm(op regOp) string {
+	if op.Mem && op.MemSp%4 != 3 {
+		return ""
+	}
+	return regUrls[op.Url]
+}
+
 func execReg(in regInput, scratch string) (Case, error) {
 	c := Case{Input: in}
 	id := atomic.AddInt64(&regSerial, 1)
@@ -110,7 +119,7 @@ func execReg(in regInput, scratch string) (Case, error) {
 		}
 		doOpen := func(op regOp) Term {
 			mode := map[string]rosmar.OpenMode{"CreateOrOpen": rosmar.CreateOrOpen, "CreateNew": rosmar.CreateNew, "ReOpenExisting": rosmar.ReOpenExisting}[op.Mode]
-			url := rosmar.InMemoryURL
+			url := []string{rosmar.InMemoryURL, "file:/?mode=memory", "walrus:", "rosmar://" + filepath.Join(dir, regUrls[op.Url]) + "?mode=memory"}[op.MemSp%4]
 			if !op.Mem {
 				url = "rosmar://" + filepath.Join(dir, regUrls[op.Url])
 			}
@@ -136,7 +145,7 @@ func execReg(in regInput, scratch string) (Case, error) {
 			}
 			switch op.Kind {
 			case "open":
-				opT = C("ROpen", B(op.Mem), S(regUrls[op.Url]), S(regNames[op.Name]), C(op.Mode))
+				opT = C("ROpen", B(op.Mem), S(regUrlTerm(op)), S(regNames[op.Name]), C(op.Mode))
 				respT = doOpen(op)
 			case "close":
 				opT = C("RClose", N(uint64(op.H)))
@@ -144,7 +153,7 @@ func execReg(in regInput, scratch string) (Case, error) {
 					// the racing open runs at the hook point inside Close, or right after it if Close returns before
 					// reaching it (a handle that is closed already)
 					ro := *op.Race
-					opT = C("RCloseOpen", N(uint64(op.H)), B(ro.Mem), S(regUrls[ro.Url]), S(regNames[ro.Name]), C(ro.Mode))
+					opT = C("RCloseOpen", N(uint64(op.H)), B(ro.Mem), S(regUrlTerm(ro)), S(regNames[ro.Name]), C(ro.Mode))
 					fired := false
 					if op.H < len(handles) {
 						rosmar.VerifSetHook(func(point string, args ...any) {
@@ -278,6 +287,7 @@ func genReg(r *rand.Rand) regInput {
 	}
 	var hs []hstate
 	opened := 0
+	memSp := []int{r.Intn(4), r.Intn(4)} // how each name's in-memory bucket is (mostly) spelled
 	for i := 0; i < n; i++ {
 		x := r.Intn(10)
 		switch {
@@ -289,7 +299,11 @@ func genReg(r *rand.Rand) regInput {
 				url = name * 2 // mostly the same URL per name, sometimes the other one
 			}
 			mode := pick(r, []string{"CreateOrOpen", "CreateOrOpen", "CreateNew", "ReOpenExisting"})
-			in.Ops = append(in.Ops, regOp{Kind: "open", Mem: mem, Url: url, Name: name, Mode: mode})
+			sp := memSp[name]
+			if r.Intn(5) == 0 {
+				sp = r.Intn(4)
+			}
+			in.Ops = append(in.Ops, regOp{Kind: "open", Mem: mem, MemSp: sp, Url: url, Name: name, Mode: mode})
 			// the generator cannot know whether the open succeeds; it tracks an upper bound of handles
 			hs = append(hs, hstate{name: name})
 			for j := range hs[:len(hs)-1] {
@@ -310,7 +324,7 @@ func genReg(r *rand.Rand) regInput {
 				if r.Intn(4) == 0 {
 					name = r.Intn(2)
 				}
-				cl.Race = &regOp{Kind: "open", Mem: r.Intn(3) == 0, Url: name * 2, Name: name, Mode: pick(r, []string{"CreateOrOpen", "CreateOrOpen", "CreateNew", "ReOpenExisting"})}
+				cl.Race = &regOp{Kind: "open", Mem: r.Intn(3) == 0, MemSp: memSp[name], Url: name * 2, Name: name, Mode: pick(r, []string{"CreateOrOpen", "CreateOrOpen", "CreateNew", "ReOpenExisting"})}
 			}
 			in.Ops = append(in.Ops, cl)
 			hs[h].closed = true
